@@ -254,6 +254,7 @@ func (s *session) version() *version {
 	s.vmu.Lock()
 	defer s.vmu.Unlock()
 	s.stVersion.incref()
+	verifEvent(503, uint64(s.stVersion.id), 0)
 	return s.stVersion
 }
 
@@ -292,6 +293,7 @@ func (s *session) setVersion(r *sessionRecord, v *version) {
 		s.stVersion.releaseNB()
 	}
 	s.stVersion = v
+	verifEvent(504, uint64(v.id), 0)
 }
 
 // Get current unused file number.
